@@ -56,6 +56,10 @@ def js_round(x: float, ndigits: int = 0) -> float:
             return math.ceil(x * multiplier - 0.5) / multiplier
 
 
+# Longest string a built-in will build in one step
+MAX_STRING_LENGTH = 2**30
+
+
 def _round_half_up(value: Fraction) -> int:
     """The integer closest to value; ties go up."""
     return math.floor(value + Fraction(1, 2))
@@ -2108,7 +2112,9 @@ class VM:
             count = to_integer(n)
             if count < 0 or n == float("inf"):
                 raise JSRangeError("Invalid count value")
-            return s * count
+            if len(s) * count > MAX_STRING_LENGTH:
+                raise JSRangeError("Invalid string length")
+            return s * count if s else ""
 
         def search_string(args, method):
             if args and isinstance(args[0], JSRegExp):
